@@ -1048,6 +1048,18 @@ func runC20W(c *Ctx) {
 			for i, j := range lanes[l] {
 				add(awRun(e, j.w, j.beh, i, f7))
 			}
+			// after every scripted failure of the lane: a healthy collection-id lookup on the SAME client must be answered by the
+			// server with the right ids (a failed lookup must leave nothing behind that later calls are served from)
+			if l == 2 && replayFile == "" {
+				for _, j := range lanes[l] {
+					if j.w.name == "GetCollectionIDs" {
+						r := awRun(e, j.w, "prompt", len(lanes[l]), f7)
+						r.tags = append(r.tags, "lookup-after-failures")
+						add(r)
+						break
+					}
+				}
+			}
 		}(l)
 	}
 	wg.Wait()
